@@ -17,6 +17,7 @@ from ..cfg import CFG, Node
 from ..core import AnchorError, Func, U, own_nodes
 from ..ctx import Ctx
 from ..report import RuleResult, alpha
+from ..dataflow import Problem, solve
 from ..valnum import VN, add, analyse, entry
 
 # (function, alpha-normalised map value) -> reason            (row-level maps; DESIGN 4/C03)
@@ -388,3 +389,129 @@ def _reach_feasible(cfg: CFG, cr: Node, L: str, once: dict[int, str]) -> set[int
             continue
         stack.extend(m for (m, l) in n.succ if l != "exc")
     return seen
+
+
+# ------------------------------------------------------------------------------------------------ NONBLANK
+class _Checked(Problem):
+    """Must-analysis: the set of line-cursor names c for which `isEmpty(c)` has been found false since c was last written."""
+
+    def entry_state(self):
+        return frozenset()
+
+    def join(self, a, b, at):
+        return a & b
+
+    @staticmethod
+    def _is_empty_call(e: ast.AST) -> str | None:
+        if isinstance(e, ast.Call) and isinstance(e.func, ast.Attribute) and e.func.attr == "isEmpty" and len(e.args) == 1 and not e.keywords \
+                and isinstance(e.args[0], ast.Name):
+            return e.args[0].id
+        return None
+
+    def edge(self, n: Node, state, label: str, succ: Node):
+        a = n.ast
+        if a is None:
+            return state
+        if n.kind == "test" and label in ("T", "F"):
+            e, pos = a, label == "T"
+            while isinstance(e, ast.UnaryOp) and isinstance(e.op, ast.Not):
+                e, pos = e.operand, not pos
+            nm = self._is_empty_call(e)
+            if nm is not None and not pos:
+                return state | {nm}
+            return state
+        if n.kind in ("stmt", "for") and label != "exc":
+            killed = set()
+            for t in ([x for tg in a.targets for x in ast.walk(tg)] if isinstance(a, ast.Assign) else
+                      [x for x in ast.walk(a.target)] if isinstance(a, (ast.AugAssign, ast.AnnAssign, ast.For)) else []):
+                if isinstance(t, ast.Name) and isinstance(t.ctx, ast.Store):
+                    killed.add(t.id)
+            for x in ast.walk(a):
+                if isinstance(x, ast.NamedExpr) and isinstance(x.target, ast.Name):
+                    killed.add(x.target.id)
+            if killed:
+                return frozenset(state - killed)
+        return state
+
+
+def rule_nonblank(c: Ctx) -> RuleResult:
+    r = RuleResult("NONBLANK", "a block rule that cuts the text of an inline container (or of a reference definition) out of a run of lines "
+                               "steps over a line only after `isEmpty` of that very line has failed: the run - hence the token's map and "
+                               "content - contains no blank line and ends on a non-blank one")
+    c = c.normalised("rules_block/")
+    from ..syn import incr_of, const_int
+    nfun = 0
+    work: list[tuple[Func, str]] = []
+    for reg in c.reg.rules["block"]:
+        f = reg.func
+        # cursors: names used as the end of a getLines(start, cursor, ...) whose result is stripped
+        found = False
+        for x in own_nodes(f.node):
+            if isinstance(x, ast.Call) and isinstance(x.func, ast.Attribute) and x.func.attr == "strip" and not x.args \
+                    and isinstance(x.func.value, ast.Call) and isinstance(x.func.value.func, ast.Attribute) and x.func.value.func.attr == "getLines" \
+                    and len(x.func.value.args) >= 2 and isinstance(x.func.value.args[1], ast.Name):
+                work.append((f, x.func.value.args[1].id))
+                found = True
+        nfun += found
+    seen: set[tuple[Func, str]] = set()
+    nloops = 0
+    while work:
+        f, cur = work.pop()
+        if (f, cur) in seen:
+            continue
+        seen.add((f, cur))
+        # the cursor may be what a scanning helper returns (`nextLine = findParagraphEnd(state, nextLine, ...)`): the helper's
+        # returned name is a cursor of the helper
+        for a in own_nodes(f.node):
+            if not (isinstance(a, ast.Assign) and isinstance(a.value, ast.Call)):
+                continue
+            idx = None
+            for t in a.targets:
+                if isinstance(t, ast.Name) and t.id == cur:
+                    idx = -1
+                elif isinstance(t, (ast.Tuple, ast.List)):
+                    for k, e in enumerate(t.elts):
+                        if isinstance(e, ast.Name) and e.id == cur:
+                            idx = k
+            if idx is None:
+                continue
+            cs = c.cg.site_of.get(a.value)
+            for g in (cs.callees if cs is not None and cs.kind in ("direct", "method") else []):
+                if not g.module.rel.startswith("rules_block/"):
+                    continue
+                for rt in own_nodes(g.node):
+                    if isinstance(rt, ast.Return) and rt.value is not None:
+                        v = rt.value
+                        if idx >= 0 and isinstance(v, (ast.Tuple, ast.List)) and idx < len(v.elts):
+                            v = v.elts[idx]
+                        if isinstance(v, ast.Name):
+                            work.append((g, v.id))
+        loops = [w for w in own_nodes(f.node) if isinstance(w, ast.While)
+                 and any((io := incr_of(s)) is not None and io[0] == cur for s in ast.walk(w) if isinstance(s, (ast.Assign, ast.AugAssign)))]
+        if not loops:
+            continue
+        nloops += 1
+        r.functions += 1
+        cfg = c.cfg(f)
+        res = solve(cfg, _Checked(), widen_after=10**9)
+        for w in loops:
+            for s in [s for s in ast.walk(w) if isinstance(s, (ast.Assign, ast.AugAssign))]:
+                io = incr_of(s)
+                if io is None or io[0] != cur:
+                    continue
+                ok = True
+                for nd in cfg.owner(s):
+                    st = res.get(nd.id)
+                    if st is not None and cur not in st:
+                        ok = False
+                r.add(f"{f.short}|step {cur}|{alpha(f, s)}|{sum(1 for k in r.obligations if k.key.startswith(f.short + '|step'))}", c.where(f, s), f.short, U(s),
+                      "discharged" if ok else "violation",
+                      f"`{cur}` is stepped only after isEmpty({cur}) failed on every path" if ok else
+                      f"the scan can step over line `{cur}` without having tested isEmpty({cur}) on some path: a blank line is taken into the "
+                      f"block (the token's map ends on - or spans - a blank line and no longer matches its stripped content)")
+    if nloops < 1:
+        raise AnchorError("no scan loop found behind the stripped getLines cuts of the block rules")
+    if nfun < 3:
+        raise AnchorError(f"only {nfun} block rules cut stripped text out of a scanned run of lines (paragraph, lheading, reference were confirmed by reading)")
+    r.floor = 3
+    return r
